@@ -495,6 +495,7 @@ class CMBinaryStr(CMBinary):
 
 
 VOCAB = {'a': 0, 'b': 1, 'c': 2}
+VOCAB4 = {'a': 0, 'b': 1, 'c': 2, 'd': 3}      # 'd' never occurs in the data: only the configuration knows it
 
 
 class CMMultiMicro(CMBinary):
@@ -558,8 +559,9 @@ class Samplewise(Adapter):
 
   def fresh(self):
     from ml_metrics._src.aggregates import classification
-    return classification.SamplewiseClassification(metrics=('precision', 'recall', 'f1_score', 'accuracy'),
-                                                   input_type='multiclass-multioutput', vocab=dict(VOCAB))
+    # binary_accuracy / specificity count true negatives against the configured vocabulary
+    return classification.SamplewiseClassification(metrics=('precision', 'recall', 'f1_score', 'accuracy', 'binary_accuracy', 'specificity'),
+                                                   input_type='multiclass-multioutput', vocab=dict(VOCAB4))
 
   def batch_args(self, rows):
     return ([r[0] for r in rows], [r[1] for r in rows])
@@ -654,7 +656,58 @@ class Thresholded(Adapter):
     return ([r[0] for r in rows], [r[1] for r in rows], [r[2] for r in rows])
 
 
+class _Res:
+  """What an adapter's result() reads, served by the AggregateFn route."""
+
+  def __init__(self, acc):
+    self._acc = acc
+
+  def result(self):
+    return self._acc.fn.get_result(self._acc.state)
+
+  def __getattr__(self, name):
+    return getattr(self._acc.state, name)
+
+
+class ViaAggFn(Adapter):
+  """The same metric configuration driven through metric.as_agg_fn() (create_state / update_state / merge_states /
+  get_result).  The reference result is the DIRECT accumulator's: as_agg_fn() must carry the whole configuration."""
+
+  def __init__(self, inner):
+    self.inner = inner
+    self.reference = inner
+    self.name = inner.name + ':as_agg_fn'
+    self.pools = inner.pools
+    self.order_matters = inner.order_matters
+    self.supports_empty_batch = inner.supports_empty_batch
+    if getattr(inner, 'compare', None) is not None:
+      self.compare = inner.compare
+
+  def fresh(self):
+    return _State(self.inner.fresh().as_agg_fn())
+
+  def add(self, acc, rows):
+    acc.state = acc.fn.update_state(acc.state, *self.inner.batch_args(rows))
+    return None
+
+  def merge(self, a, b):
+    a.state = a.fn.merge_states([a.state, b.state])
+    return a
+
+  def merge_states(self, accs):
+    accs[0].state = accs[0].fn.merge_states([x.state for x in accs])
+    return accs[0]
+
+  def result(self, acc):
+    return self.inner.result(_Res(acc))
+
+
 def all_adapters():
+  return _direct_adapters() + [ViaAggFn(a) for a in (Hist(), HistEdges(), Reservoir3(), ValueAccMetric(), RRegNC(), NGrams2(), PatternsNoDup(),
+                                                     Samplewise(), TopKRetMulticlass(), MeanVar2D())]
+
+
+def _direct_adapters():
   return [Mean1D(), Mean2D(), MeanVar1D(), MeanVar2D(), Var1D(), Hist(), HistEdges(), CounterA(), MinMax(), ValueAcc(),
           ValueAccMetric(), Unbounded(), UnboundedSingle(), Reservoir(), Reservoir3(), R2(), R2Rel(), RReg(), RRegNC(),
           RRegMulti(), SPD(), MeanStateA(), MeanStateArr(), TupleMean(), NGrams(), NGrams2(), NGramsFirst(), Patterns(),
